@@ -118,3 +118,63 @@ def run(ctx):
     # the reverse solve sees, through ReverseBrownian, the very path the forward solve saw: the wrappers do not replace the
     # object they view while answering a query
     ctx.guard(c05.r05_7)
+
+
+_run_before_r10_7 = run
+
+
+def run(ctx):
+    _run_before_r10_7(ctx)
+    # "reconstructs every state up to rounding error": the reversed solve must query the Brownian motion on the intervals the
+    # forward solve used, as floating-point numbers (rule of C10; known finding: the two grids are anchored at opposite ends)
+    from . import c10
+    ctx.guard(c10.r10_7)
+
+
+# ------------------------------------------------------------------------------------------------ R15.9
+def r15_9(ctx):
+    """The reversed solve sees the path t -> -W(-t): ReverseBrownian asks the base object for (-tb, -ta).  With a tolerance
+    the base quantises those times; the reversed query hits the mirror image of the forward query's cell only if the
+    quantiser is odd, q(-x) = -q(x), for every x -- grid points, half cells and the ulp-neighbours of both that the two
+    accumulated step grids produce.  (Rounding to nearest, ties to even, is odd; a floor or a ceiling is not: -0.8 and
+    0.7999999999999999 land one cell apart.)  The quantiser the constructor builds is evaluated on exact rationals."""
+    from fractions import Fraction as F
+    from . import c04
+    from ..interp import Interp
+    from . import brownian_kit as bk
+    rep, model = ctx.rep, ctx.model
+    rep.rule("R15.9", "the time quantiser of a Brownian motion with a tolerance is odd (q(-x) == -q(x)), so that the reversed "
+                      "solve's queries (-tb, -ta) are quantised to the mirror image of the forward ones")
+    fi = model.func(c04.BI, "BrownianInterval.__init__")
+    rep.analysed(fi)
+    n = 0
+    for tol in (F(1, 1000), F(5, 1000), F(1, 10), F(1, 10 ** 6)):
+        r = c04.eval_init(model, t0=F(-2), t1=F(2), tol=tol)
+        q = r["me"].attrs.get("_round")
+        it = Interp(model, bk.BrownianHooks())
+        cell = tol
+        xs = []
+        for base in (F(0), F(4, 5), F(1, 3), F(1)):
+            for off in (F(0), cell / 2, cell / 2 - cell / 1000, cell / 2 + cell / 1000, cell / 1000, -cell / 1000, cell / 3):
+                xs.append(base + off)
+        bad = []
+        for x in xs:
+            a, b = it.call(q, [x], {}), it.call(q, [-x], {})
+            if not (isinstance(a, F) and isinstance(b, F)):
+                raise AnalysisError("the quantiser does not return a number on an exact rational", where=astq.loc(fi))
+            if a != -b:
+                bad.append((x, a, b))
+        n += 1
+        rep.check(not bad, "R15.9", astq.loc(fi), f"{fi.key}::R15.9::tol={tol}",
+                  f"tol={tol}: q({bad[0][0] if bad else ''}) = {bad[0][1] if bad else ''} but q({-bad[0][0] if bad else ''}) = "
+                  f"{bad[0][2] if bad else ''} ({len(bad)} of {len(xs)} sample points): the reversed solve reads other cells of "
+                  f"the path than the forward solve did, and the states are not reconstructed", "q(-x) == -q(x)")
+    ctx.floor("R15.9", 4)
+
+
+_run_before_r15_9 = run
+
+
+def run(ctx):
+    _run_before_r15_9(ctx)
+    ctx.guard(r15_9)
